@@ -42,7 +42,7 @@ fn session_ops(p: &mut Prng, pfx: &str, signer: &str, gen_key_by_lib: bool) -> (
     }
     ops.push(set(&s("msg"), &msg));
     let idref: Value = if id.is_some() { json!(s("id")) } else { Value::Null };
-    ops.push(json!({"op":"sm2.sign","impl":signer,"d":s("d"),"id":idref,"msg":s("msg"),"sig":s("sig"),"rng":rng_json(&uniform_script(p, 1))}));
+    ops.push(json!({"op":"sm2.sign","impl":signer,"d":s("d"),"id":idref,"msg":s("msg"),"sig":s("sig"),"rng":rng_json(&classy_script(p, &n))}));
     (ops, Sess { pfx: pfx.to_string(), d, id, msg })
 }
 
